@@ -266,6 +266,24 @@ def expected(case):
             return str(k)
         if op == "ucount_ones":
             return str(bin(I(0)).count("1"))
+        if op == "cv":
+            kind, ty, n = a[0], a[1], I(2)
+            if kind in ("u", "i"):
+                bits = 64 if ty in ("usize", "isize") else int(ty[1:])
+                lo, hi = (0, 1 << bits) if ty[0] == "u" else (-(1 << (bits - 1)), 1 << (bits - 1))
+                fits = lo <= n < hi
+                return "%s %s %s" % ("Some(%d)" % n if fits else "None", "Ok(%d)" % n if fits else "Err", "Ok(%d)" % n if fits else "Err(%s)" % hx(n))
+            if kind == "iu":
+                ok = n >= 0
+                return "%s %s %s %s" % ("Ok(%s)" % hx(n) if ok else "Err", "Ok(%s)" % hx(n) if ok else "Err(%s)" % hx(n), "Some(%s)" % hx(n) if ok else "None", "Some(%s)" % hx(n))
+            if kind == "ui":
+                return "%s Some(%s) Some(%s)" % (hx(n), hx(n), hx(n))
+        if op == "fr":
+            ty, n = a[0], I(1)
+            if ty[0] == "u":
+                return "%s %s Some(%s) Some(%s) Some(%s) Some(%s)" % ((hx(n),) * 6)
+            ok = n >= 0
+            return "%s %s %s Some(%s) %s Some(%s)" % ("Ok(%s)" % hx(n) if ok else "Err", hx(n), "Some(%s)" % hx(n) if ok else "None", hx(n), "Some(%s)" % hx(n) if ok else "None", hx(n))
         if op in ("uto_u64", "ito_u64"):
             return "Some(%d)" % I(0) if 0 <= I(0) < B64 else "None"
         if op == "uto_u128":
@@ -588,6 +606,39 @@ def bank(pid, tier, seed):
             for op in ("ubits", "utrailing_zeros", "utrailing_ones", "ucount_ones"):
                 cases.append((op, hx(a)))
     elif pid == "C08":
+        TYS = ("u8", "u16", "u32", "u64", "u128", "usize", "i8", "i16", "i32", "i64", "i128", "isize")
+        edges = set()
+        for b in (7, 8, 15, 16, 31, 32, 63, 64, 127, 128):
+            for d in (-2, -1, 0, 1, 2):
+                edges.add((1 << b) + d)
+                edges.add(-(1 << b) + d)
+        edges |= {0, 1, -1, 2, -2}
+        for ty in TYS:
+            bits = 64 if ty in ("usize", "isize") else int(ty[1:])
+            lo, hi = (0, (1 << bits) - 1) if ty[0] == "u" else (-(1 << (bits - 1)), (1 << (bits - 1)) - 1)
+            for e in sorted(edges):
+                cases.append(("cv", "i", ty, hx(e)))
+                if e >= 0:
+                    cases.append(("cv", "u", ty, hx(e)))
+                if lo <= e <= hi:
+                    cases.append(("fr", ty, hx(e)))
+            for _ in range(reps * 2):
+                v = rng.randrange(lo, hi + 1)
+                cases.append(("fr", ty, hx(v)))
+                cases.append(("cv", "i", ty, hx(v)))
+                w = big(rng, rng.randrange(0, 4))
+                cases.append(("cv", "i", ty, hx(-w)))
+                cases.append(("cv", "u", ty, hx(w)))
+        for e in sorted(edges):
+            cases.append(("cv", "iu", "-", hx(e)))
+            if e >= 0:
+                cases.append(("cv", "ui", "-", hx(e)))
+        for nd in range(0, 6):
+            for _ in range(reps):
+                w = big(rng, nd)
+                cases.append(("cv", "iu", "-", hx(w)))
+                cases.append(("cv", "iu", "-", hx(-w)))
+                cases.append(("cv", "ui", "-", hx(w)))
         for nd in range(0, 20):
             for _ in range(reps * 4):
                 a = big(rng, nd)
